@@ -3,7 +3,7 @@
 # expect exit 1 (VIOLATION), undo. Prints one line per change. /repo must be clean.
 cd /verif
 [ -n "$(git -C /repo status --porcelain)" ] && { echo "/repo not clean"; exit 2; }
-for d in seeded/${1:-*}/; do
+for d in /verif/seeded/${1:-*}/; do
   n=$(basename "$d"); c=${n%%-*}
   if ! git -C /repo apply --check "$d/patch.diff" 2>/dev/null; then echo "$n: patch no longer applies"; continue; fi
   git -C /repo apply "$d/patch.diff"
